@@ -62,7 +62,7 @@ def reg_from_schema(schema):
             continue
         if isinstance(t, ScalarType):
             if t not in SPECIFIED_SCALAR_TYPES:
-                impl = "even" if name == "Even" else ("tagged" if name == "Tag" else "identity")
+                impl = {"Even": "even", "Tag": "tagged", "Pos": "pos"}.get(name, "identity")
                 types.append({"name": name, "kind": "custom", "impl": impl})
         elif isinstance(t, EnumType):
             types.append({"name": name, "kind": "enum", "values": [[v.name, v.value] for v in t.values]})
